@@ -344,6 +344,17 @@ pub fn coordinator_main(check: &Check, tier: Tier) -> i32 {
             from = to;
         }
     }
+    // Interleave the batches (each chunk is ordered by the fraction of its batch that precedes it),
+    // so that a wall-clock cap trims every batch proportionally instead of dropping the last ones.
+    {
+        let runs_of: BTreeMap<String, u64> = batches.iter().map(|b| (b.name.to_string(), b.runs.max(1))).collect();
+        let order: BTreeMap<String, usize> = batches.iter().enumerate().map(|(i, b)| (b.name.to_string(), i)).collect();
+        chunks.sort_by(|x, y| {
+            let fx = (x.from as u128 * 1_000_000 / runs_of[&x.batch] as u128, order[&x.batch]);
+            let fy = (y.from as u128 * 1_000_000 / runs_of[&y.batch] as u128, order[&y.batch]);
+            fx.cmp(&fy)
+        });
+    }
     let total_runs: u64 = batches.iter().map(|b| b.runs).sum();
     let workers = std::env::var("VERIF_WORKERS")
         .ok()
